@@ -140,7 +140,17 @@ def _cp_sweeps(E, cfg, hals):
 
     shp, R, opt, K = cfg["shape"], cfg["R"], cfg["opt"], cfg["K"]
     if not E.symbolic:
-        E.prove("replay_not_applicable", True)
+        # falsification side: a failed certificate is only a violation if the REAL run shows an actual ascent of the objective
+        # (recomputed from scratch from the iterates) on the model input or on nearby inputs
+        X = np.asarray(E.real("X", shp, nn=hals), dtype=float)
+        F0 = [np.asarray(E.real(f"F{k}", (n, R), nn=hals), dtype=float) for k, n in enumerate(shp)]
+        fn = non_negative_parafac_hals if hals else parafac
+        ok = _descends(fn, X, R, F0, opt == "normalize", hals)
+        for s_ in range(K):
+            for m in range(len(shp)):
+                for nm in ("UtU_is_gram_of_design", "UtM_is_mttkrp", "warm_start_is_current_factor", "system_matrix_is_gram_of_design", "rhs_is_mttkrp", "normalisation_input_is_current_iterate"):
+                    E.prove(f"s{s_}m{m}/{nm}", ok)
+        E.prove("one_kernel_call_per_block", ok)
         return
     backend.configure(solve="contract")
     backend.patch(_cp, "cp_normalize", stub_cp_normalize)
@@ -200,6 +210,35 @@ def _cp_sweeps(E, cfg, hals):
                     w = np.asarray(outn[0], dtype=object)
                     F = [np.asarray(f, dtype=object) for f in outn[1]]
                     ni += 1
+
+
+def _descends(fn, X, R, F0, normalize, nonneg, sweeps=5):
+    """concrete experiment: objective ||X - dense(iterate)||^2 after each sweep (iterates from prefix runs) never increases"""
+    rng = np.random.RandomState(0)
+    cases = [(X, F0)]
+    for t in range(12):
+        sc = [1.0, 0.1, 10.0][t % 3]
+        Xp = X * sc + rng.randn(*X.shape) * 0.3 * (t > 2)
+        Fp = [f + rng.randn(*f.shape) * 0.5 for f in F0]
+        if nonneg:
+            Xp = np.abs(Xp)
+            Fp = [np.abs(f) + 0.1 for f in Fp]
+        cases.append((Xp, Fp))
+    for Xc, Fc in cases:
+        prev = None
+        for k in range(1, sweeps + 1):
+            try:
+                res = fn(Xc.copy(), R, n_iter_max=k, init=(None, [f.copy() for f in Fc]), tol=0, normalize_factors=normalize)
+            except Exception:
+                break
+            w, fs = res
+            val = float(np.sum((Xc - tl.cp_to_tensor((w, fs))) ** 2))
+            if not np.isfinite(val):
+                break
+            if prev is not None and val > prev * (1 + 1e-7) + 1e-10:
+                return False
+            prev = val
+    return True
 
 
 def h_cp_als(E, cfg):
